@@ -45,8 +45,10 @@ pub struct Trace {
 pub struct C14;
 
 /// Admissible: native +- up to 8 ULP (DESIGN.md §7: native powi is up to 6 ULP off; Miri models +-4)
-const ADMISSIBLE: [FloatEnv; 9] = [
+const ADMISSIBLE: [FloatEnv; 11] = [
     FloatEnv::Native,
+    FloatEnv::UlpAlt(8),
+    FloatEnv::UlpAlt(-8),
     FloatEnv::Ulp(1),
     FloatEnv::Ulp(-1),
     FloatEnv::Ulp(2),
@@ -62,7 +64,7 @@ const STRESS: [FloatEnv; 6] = [FloatEnv::Ulp(12), FloatEnv::Ulp(-12), FloatEnv::
 fn admissible(e: &FloatEnv) -> bool {
     match *e {
         FloatEnv::Native => true,
-        FloatEnv::Ulp(d) => d.abs() <= 8,
+        FloatEnv::Ulp(d) | FloatEnv::UlpAlt(d) => d.abs() <= 8,
         _ => false,
     }
 }
